@@ -253,7 +253,7 @@ def _case(i):
         return res
     parsed = refparse.parse(text)
     script = gen_script(rng, len(prog), deep)
-    fname = 'd%d_%d.hyeong' % (os.getpid(), i)
+    fname = rng.choice(['d%d_%d.hyeong', 'd%d_%d.hyeong', 'd %d:%d.hyeong', '디버그%d_%d.hyeong']) % (os.getpid(), i)
     path = P.write_program(rundir, fname, text)
     res['key'] = C.sha(text + '\0' + '\n'.join(script))
     res['src'] = name
